@@ -419,3 +419,274 @@ class PtGlyph:
 
     def draw(self, pen):
         replay_ops(self._to_ops(self.items), pen)
+
+
+# ---------------------------------------------------------------------------
+# Fast seeded generator. Hypothesis spends ~10x the cost of all sub-checks on
+# drawing the few hundred primitives of one case, so the bulk of the cases is
+# built by the functions below from a random.Random whose seed is the single
+# value Hypothesis draws (fast_case). The distributions mirror the strategies
+# above; the structured strategies are still run for a share of the cases.
+
+import math as _math
+import random as _random
+
+
+def r_coord(rnd, mode):
+    if mode == "int":
+        k = rnd.randrange(5)
+        if k < 2:
+            return rnd.randint(-3, 3)
+        if k == 2:
+            return rnd.randint(-20, 20)
+        if k == 3:
+            return rnd.randint(-1000, 1000)
+        return rnd.randint(-8000, 8000)
+    k = rnd.randrange(6)
+    if k == 0:
+        return rnd.randint(-60, 60) + 0.5
+    if k == 1:
+        return rnd.randint(-60, 60) + 0.5 + rnd.choice([-1e-6, 1e-6, -0.25, 0.25, 0.4999999, -0.4999999, 0.5])
+    if k == 2:
+        return rnd.randint(-400, 400) / 4.0
+    if k == 3:
+        return rnd.uniform(-1000, 1000)
+    if k == 4:
+        return rnd.uniform(-10, 10)
+    return rnd.randint(-30, 30)
+
+
+def r_pointfn(rnd, mode):
+    pool = [[r_coord(rnd, mode), r_coord(rnd, mode)] for _ in range(rnd.randint(1, 5))]
+
+    def pt():
+        if rnd.randrange(3) < 2:
+            return list(rnd.choice(pool))
+        return [r_coord(rnd, mode), r_coord(rnd, mode)]
+
+    return pt
+
+
+def r_int_transform(rnd, singular_ok=True):
+    def off():
+        k = rnd.randrange(3)
+        return 0 if k == 0 else rnd.randint(-5, 5) if k == 1 else rnd.randint(-300, 300)
+
+    mats = _INT_MATS + (_SINGULAR_INT_MATS if singular_ok else [])
+    while True:
+        if rnd.randrange(3) < 2:
+            m = list(rnd.choice(mats))
+        else:
+            m = [rnd.choice([-3, -2, -1, 0, 1, 3]) for _ in range(4)]
+        if singular_ok or m[0] * m[3] - m[1] * m[2] != 0:
+            return m + [off(), off()]
+
+
+def r_float_transform(rnd):
+    def sc():
+        k = rnd.randrange(3)
+        return rnd.choice([1.0, -1.0, 0.5, 2.0, 1.5, -0.75]) if k == 0 else rnd.uniform(0.3, 2.0) if k == 1 else rnd.uniform(-2.0, -0.3)
+
+    def off():
+        k = rnd.randrange(4)
+        return 0 if k == 0 else rnd.randint(-300, 300) if k == 1 else rnd.uniform(-500, 500) if k == 2 else rnd.randint(-20, 20) + 0.5
+
+    while True:
+        a = rnd.choice([0.0, _math.pi / 2, _math.pi / 6, -_math.pi / 4, 1.0]) if rnd.randrange(2) else rnd.uniform(-3.2, 3.2)
+        k = 0.0 if rnd.randrange(2) else rnd.uniform(-0.6, 0.6)
+        sx, sy = sc(), sc()
+        c, s = _math.cos(a), _math.sin(a)
+        t = [c * sx, s * sx, (-s + c * k) * sy, (c + s * k) * sy, off(), off()]
+        if abs(t[0] * t[3] - t[1] * t[2]) >= 0.05:
+            return t
+
+
+def r_transform(rnd, mode, singular_ok=True):
+    if mode == "int":
+        return r_int_transform(rnd, singular_ok)
+    if rnd.randrange(3) < 2:
+        return r_float_transform(rnd)
+    return r_int_transform(rnd, False)
+
+
+_SEGKINDS = ["l", "l", "l", "c", "c", "c", "q", "q", "q", "q0", "super", "short"]
+
+
+def r_seg_contour(rnd, pt):
+    kind = rnd.choice(["normal"] * 8 + ["single", "noon", "noon"])
+    if kind == "single":
+        return [["moveTo", [pt()]], ["closePath" if rnd.randrange(2) else "endPath", []]]
+    if kind == "noon":
+        n = rnd.choice([1, 2, 2, 3, 3, 4, 4, 5, 7])
+        offs = [pt() for _ in range(n)]
+        if n >= 2 and rnd.randrange(6) == 0:
+            offs[-1] = list(offs[0])
+        return [["qCurveTo", offs + [None]], ["closePath", []]]
+    p0 = pt()
+    ops = [["moveTo", [p0]]]
+    for _ in range(rnd.randint(1, 5)):
+        t = rnd.choice(_SEGKINDS)
+        if t == "l":
+            ops.append(["lineTo", [pt()]])
+        elif t == "c":
+            ops.append(["curveTo", [pt(), pt(), pt()]])
+        elif t == "super":
+            ops.append(["curveTo", [pt() for _ in range(rnd.choice([4, 4, 5, 6, 7]))]])
+        elif t == "short":
+            ops.append(["curveTo", [pt() for _ in range(rnd.choice([1, 2]))]])
+        elif t == "q":
+            ops.append(["qCurveTo", [pt() for _ in range(rnd.choice([2, 2, 2, 3, 3, 4, 5]))]])
+        else:
+            ops.append(["qCurveTo", [pt()]])
+        if rnd.randrange(10) == 0:
+            ops.append(["lineTo", [list(ops[-1][1][-1])]])
+    closed = rnd.randrange(3) != 0
+    if closed:
+        how = rnd.choice(["plain", "plain", "line-to-start", "last-on-start"])
+        if how == "line-to-start":
+            ops.append(["lineTo", [list(p0)]])
+        elif how == "last-on-start":
+            ops[-1] = [ops[-1][0], ops[-1][1][:-1] + [list(p0)]]
+    ops.append(["closePath" if closed else "endPath", []])
+    return ops
+
+
+def r_seg_glyph(rnd, mode, comp_names=(), max_contours=4, min_contours=0):
+    pt = r_pointfn(rnd, mode)
+    parts = [r_seg_contour(rnd, pt) for _ in range(rnd.randint(min_contours, max_contours))]
+    if comp_names:
+        for _ in range(rnd.choice([0, 0, 1, 1, 2])):
+            parts.insert(rnd.randint(0, len(parts)), [["addComponent", [rnd.choice(list(comp_names)), r_transform(rnd, mode)]]])
+    return [op for part in parts for op in part]
+
+
+def r_flags(rnd):
+    return dict(oicl=bool(rnd.randrange(2)), guess=bool(rnd.randrange(2)), drop=bool(rnd.randrange(2)), opt=bool(rnd.randrange(2)), isp=bool(rnd.randrange(2)))
+
+
+def r_seg_case(rnd, mode):
+    glyphs = {
+        "a": r_seg_glyph(rnd, mode, min_contours=1, max_contours=2),
+        "b": r_seg_glyph(rnd, mode, max_contours=2),
+        "c": r_seg_glyph(rnd, mode, comp_names=("a", "b"), max_contours=1),
+    }
+    ops = r_seg_glyph(rnd, mode, comp_names=GLYPH_NAMES if rnd.randrange(4) else ())
+    if not any(op[0] == "addComponent" for op in ops) and rnd.randrange(2):
+        glyphs = {"a": [], "b": [], "c": []}  # keep component-free cases small
+    return dict(kind="seg", mode=mode, glyphs=glyphs, ops=ops, T=r_transform(rnd, mode), flags=r_flags(rnd))
+
+
+def r_pt_contour(rnd, pt, ids):
+    def mk(p, t):
+        ident = None
+        if rnd.randrange(6) == 0:
+            ident = "id%d" % len(ids)
+            ids.append(ident)
+        return [p[0], p[1], t, bool(rnd.randrange(2)) if t is not None else False, rnd.choice(_NAMES), ident]
+
+    kind = rnd.choice(["normal"] * 8 + ["single", "noon", "noon"])
+    if kind == "single":
+        return [mk(pt(), rnd.choice(["line", "qcurve", None, "move"]))]
+    if kind == "noon":
+        pts = [pt() for _ in range(rnd.choice([2, 2, 3, 3, 4, 5, 7]))]
+        if rnd.randrange(6) == 0:
+            pts[-1] = list(pts[0])
+        return [mk(p, None) for p in pts]
+    segs = []
+    for _ in range(rnd.randint(1, 5)):
+        t = rnd.choice(_SEGKINDS)
+        if t == "l":
+            segs.append(("line", 0))
+        elif t == "c":
+            segs.append(("curve", 2))
+        elif t == "super":
+            segs.append(("curve", rnd.choice([3, 3, 4, 5, 6])))
+        elif t == "short":
+            segs.append(("curve", rnd.choice([0, 1])))
+        elif t == "q":
+            segs.append(("qcurve", rnd.choice([1, 1, 1, 2, 2, 3, 4])))
+        else:
+            segs.append(("qcurve", 0))
+    is_open = rnd.randrange(3) == 0
+    out = []
+    if is_open:
+        out.append(mk(pt(), "move"))
+    for t, noff in segs:
+        for _ in range(noff):
+            out.append(mk(pt(), None))
+        out.append(mk(pt(), t))
+        if rnd.randrange(10) == 0:
+            out.append(mk(out[-1][:2], "line"))
+    if not is_open:
+        if rnd.randrange(4) == 0 and len(out) > 1:
+            first_on = next(p for p in out if p[2] is not None)
+            out[-1] = [first_on[0], first_on[1]] + out[-1][2:]
+        r = rnd.randrange(len(out))
+        out = out[r:] + out[:r]
+    return out
+
+
+def r_pt_glyph(rnd, mode, comp_names=(), max_contours=4, min_contours=0):
+    pt = r_pointfn(rnd, mode)
+    ids = []
+    items = []
+    for _ in range(rnd.randint(min_contours, max_contours)):
+        c = r_pt_contour(rnd, pt, ids)
+        ident = None
+        if rnd.randrange(4) == 0:
+            ident = "cid%d" % len(ids)
+            ids.append(ident)
+        items.append({"c": c, "id": ident})
+    if comp_names:
+        for _ in range(rnd.choice([0, 0, 1, 1, 2])):
+            ident = None
+            if rnd.randrange(3) == 0:
+                ident = "kid%d" % len(ids)
+                ids.append(ident)
+            items.insert(rnd.randint(0, len(items)), {"comp": [rnd.choice(list(comp_names)), r_transform(rnd, mode), ident]})
+    return items
+
+
+def r_pt_case(rnd, mode):
+    glyphs = {
+        "a": r_pt_glyph(rnd, mode, min_contours=1, max_contours=2),
+        "b": r_pt_glyph(rnd, mode, max_contours=2),
+        "c": r_pt_glyph(rnd, mode, comp_names=("a", "b"), max_contours=1),
+    }
+    items = r_pt_glyph(rnd, mode, comp_names=GLYPH_NAMES if rnd.randrange(4) else ())
+    if not any("comp" in it for it in items) and rnd.randrange(2):
+        glyphs = {"a": [], "b": [], "c": []}
+    fl = r_flags(rnd)
+    return dict(kind="pt", mode=mode, glyphs=glyphs, items=items, T=r_transform(rnd, mode), flags=dict(oicl=fl["oicl"], guess=fl["guess"], drop=fl["drop"]))
+
+
+def r_alg_case(rnd):
+    mode = rnd.choice(["int", "float", "float"])
+    return dict(
+        kind="alg",
+        mode=mode,
+        A=r_transform(rnd, mode, False),
+        B=r_transform(rnd, mode, False),
+        C=r_transform(rnd, mode, False),
+        pts=[[r_coord(rnd, mode), r_coord(rnd, mode)] for _ in range(rnd.randint(1, 4))],
+        angle=rnd.choice([0.0, _math.pi / 2, _math.pi, -_math.pi / 2]) if rnd.randrange(3) == 0 else rnd.uniform(-6.3, 6.3),
+        skew=[rnd.uniform(-1.2, 1.2), rnd.uniform(-1.2, 1.2)],
+        sc=[rnd.randint(-3, 3) if rnd.randrange(2) else rnd.uniform(-3, 3) for _ in range(2)],
+        tr=[r_coord(rnd, mode), r_coord(rnd, mode)],
+    )
+
+
+def build_case(kind, mode, seed):
+    rnd = _random.Random(seed)
+    if kind == "seg":
+        return r_seg_case(rnd, mode)
+    if kind == "pt":
+        return r_pt_case(rnd, mode)
+    if kind == "alg":
+        return r_alg_case(rnd)
+    raise ValueError(kind)
+
+
+def fast_case(kind, mode):
+    """Strategy: Hypothesis draws one 62-bit seed, the case is built from it."""
+    return st.integers(0, 2**62 - 1).map(lambda s: build_case(kind, mode, s))
